@@ -26,6 +26,7 @@ var commonAssumptions = []string{
 }
 
 var registry = map[string]*PropDef{
+	"SMOKE": {Harnesses: []HarnessDef{{Pkg: "cmd", Func: "VP_Smoke", Share: 1}}, QuickBudget: time.Minute, ThoroughBudget: time.Minute},
 	"C06": {
 		Harnesses: []HarnessDef{
 			{Pkg: "internal/store", Func: "VP_C06_GetEntry", Quick: map[string]int{"entries": 3, "depth": 2, "complen": 2}, Thorough: map[string]int{"entries": 4, "depth": 2, "complen": 2}, Share: 0.3},
